@@ -256,6 +256,7 @@ def rule_c05_call_layer(ctx):
     n_none = n_complete = 0
     unparsed = set()
     stored = set()
+    special = set()
     for o in outs:
         if o.kind == "panic":
             info = o.info
@@ -289,6 +290,16 @@ def rule_c05_call_layer(ctx):
                 ctx.reviewed_or_violation(R, "partial-fallback:" + what, desc, loc=body_loc(tr))
             elif reader is not None:
                 ctx.violation(R, "store-on-incomplete", "state is stored on incomplete input", loc=body_loc(tr))
+        if cls == "complete":
+            # the 100-continue special case applies to status 100 only: every other complete head is delivered with
+            # its status and fields (and a body reader chosen); `HeadersWith100` is an answer for status 100 alone
+            siv = [v[1] for k, v in st.facts.items() if v[0] == "iv" and "@status" in repr(k)]
+            only100 = bool(siv) and all(iv == ((100, 100),) for iv in siv)
+            reader_now = st.mem.get(CALL, {}).get((("f", "state"), ("f", "reader"), ("$v",)))
+            if rs.startswith("Err(HeadersWith100") and not only100:
+                special.add("a complete head with status %s is refused with HeadersWith100" % (siv[0] if siv else "?",))
+            if rs.startswith("Ok(Some") and reader_now != ("variant", "Some") and not only100:
+                special.add("a complete head with status %s is delivered without a body reader being chosen" % (siv[0] if siv else "?",))
         if cls == "complete" and rs.startswith("Ok(Some"):
             n_complete += 1
             n = o.ret.get((("v", "Ok"), ("f", "0"), ("v", "Some"), ("f", "0"), ("f", "0")))
@@ -299,6 +310,8 @@ def rule_c05_call_layer(ctx):
     ctx.check(not unparsed, R, "always-parsed", "every answer of the call layer is preceded by a complete parse of exactly the offered input "
               "(no pre-filter or remembered scan position decides need-more)", loc=body_loc(tr),
               detail=["returns %s without the full parse" % u for u in sorted(unparsed)][:4])
+    ctx.check(not special, R, "only-100-is-special", "the interim-response special case (no body reader, fields refused) applies to status 100 "
+              "alone; every other complete head is delivered as parsed", loc=body_loc(tr), detail=sorted(special)[:3])
     ctx.check(not stored, R, "need-more-stateless", "a need-more answer stores nothing in the call (the same bytes plus more are parsed afresh)",
               loc=body_loc(tr), detail=sorted(stored)[:3])
     ctx.check(n_none >= 1 and n_complete >= 1, R, "need-more-paths", "incomplete-head and complete-head paths of the call layer were analysed (%d / %d paths)" % (
